@@ -1,6 +1,7 @@
 package loader
 
 import (
+	"bytes"
 	"sync"
 
 	jschema "github.com/jsightapi/jsight-schema-go-library"
@@ -55,6 +56,11 @@ type loader struct {
 	// the rule cannot be added if there is more than one nodes suitable for this
 	// in the row.
 	nodesPerCurrentLineCount uint
+
+	// annotationEndedOnThisLine a multi-line annotation, begun on an earlier line,
+	// ended on the current line and no node has started on this line since: a
+	// further annotation here still belongs to the node of that annotation.
+	annotationEndedOnThisLine bool
 }
 
 func LoadSchema(scan *scanner.Scanner, rootSchema *schema.Schema) *schema.Schema {
@@ -129,11 +135,23 @@ func (l *loader) doLoad() {
 		case readMultiLineComment, readInlineComment:
 			l.rule.load(lex)
 		default:
+			if lex.Type() == lexeme.NewLine {
+				l.annotationEndedOnThisLine = false
+			}
 			if node := l.node.Load(lex); node != nil {
 				l.lastAddedNode = node
 			}
 		}
 	}
+}
+
+// nodesOfAnnotatedLine returns the number of nodes an annotation that begins
+// here can refer to.
+func (l *loader) nodesOfAnnotatedLine() uint {
+	if l.nodesPerCurrentLineCount == 0 && l.annotationEndedOnThisLine {
+		return 1
+	}
+	return l.nodesPerCurrentLineCount
 }
 
 func (l *loader) handleLex(lex lexeme.LexEvent) (bool, error) { //nolint:gocyclo // Pretty readable though.
@@ -154,17 +172,24 @@ func (l *loader) handleLex(lex lexeme.LexEvent) (bool, error) { //nolint:gocyclo
 
 	case lexeme.MultiLineAnnotationBegin:
 		l.mode = readMultiLineComment
-		l.rule = newRuleLoader(l.lastAddedNode, l.nodesPerCurrentLineCount, l.rootSchema, l.rules)
+		l.rule = newRuleLoader(l.lastAddedNode, l.nodesOfAnnotatedLine(), l.rootSchema, l.rules)
 		return true, nil
 
 	case lexeme.MultiLineAnnotationEnd:
 		l.mode = readDefault
+		if bytes.ContainsAny(lex.Value(), "\n\r") {
+			// The line breaks inside the annotation went to the rule loader: the
+			// nodes counted so far stand on the line the annotation began on, not
+			// on the line it ends on.
+			l.nodesPerCurrentLineCount = 0
+			l.annotationEndedOnThisLine = true
+		}
 		return true, nil
 
 	case lexeme.InlineAnnotationBegin:
 		if l.mode == readDefault { // not multiLine comment
 			l.mode = readInlineComment
-			l.rule = newRuleLoader(l.lastAddedNode, l.nodesPerCurrentLineCount, l.rootSchema, l.rules)
+			l.rule = newRuleLoader(l.lastAddedNode, l.nodesOfAnnotatedLine(), l.rootSchema, l.rules)
 			return true, nil
 		}
 
